@@ -22,25 +22,27 @@ EVIL = 'https://evil.example/endpoint'
 _RCV = {}
 
 
-def receiver(rtype, endpoint, want):
-    key = (rtype, endpoint, want)
+def receiver(rtype, endpoint, want, issuer_key='known'):
+    key = (rtype, endpoint, want, issuer_key)
     if key in _RCV:
         return _RCV[key]
     only = endpoint == 'otherBindingOnly'
+    nokey = issuer_key == 'nokey'
+    spmd = [env.sp_metadata(keys=())] if nokey else None
     if rtype in ('authn', 'logout_idp'):
         eps = {'single_sign_on_service': [(IDP_SSO['redirect'], B['redirect'])] + ([] if only else [(IDP_SSO['post'], B['post'])]),
                'single_logout_service': [(IDP_SLO['redirect'], B['redirect'])] + ([] if only else [(IDP_SLO['post'], B['post']), (IDP_SLO['soap'], B['soap'])])}
-        r = env.make_idp(env.idp_config(endpoints=eps, want_authn_requests_signed=want))
+        r = env.make_idp(env.idp_config(metadata_xml=spmd, endpoints=eps, want_authn_requests_signed=want))
     elif rtype == 'attrquery':
         # an entity that is IdP and attribute authority; the option is read from the IdP part
-        conf = env.idp_config(want_authn_requests_signed=want)
+        conf = env.idp_config(metadata_xml=spmd, want_authn_requests_signed=want)
         conf['service']['aa'] = {'endpoints': {'attribute_service': [(AA_ATTR, B['soap'])]},
                                  'policy': conf['service']['idp']['policy']}
         r = env.make_idp(conf)
     else:
         eps = {'assertion_consumer_service': [(env.SP_ACS_POST, B['post'])],
                'single_logout_service': [(SP_SLO['redirect'], B['redirect'])] + ([] if only else [(SP_SLO['post'], B['post']), (SP_SLO['soap'], B['soap'])])}
-        r = env.make_sp(env.sp_config(metadata_xml=[env.idp_metadata(slo=env.IDP1_SLO)], endpoints=eps))
+        r = env.make_sp(env.sp_config(metadata_xml=[env.idp_metadata(slo=env.IDP1_SLO, keys=() if nokey else (('kIdp1', 'signing'),))], endpoints=eps))
     _RCV[key] = r
     return r
 
@@ -128,7 +130,7 @@ def build(scn):
 
 def replay(case):
     scn = case['scn']
-    rcv = receiver(scn['rtype'], scn['endpoint'], scn['want'])
+    rcv = receiver(scn['rtype'], scn['endpoint'], scn['want'], scn.get('issuerKey', 'known'))
     doc, enc = build(scn)
     obs = {'doc': doc, 'exc': None}
     try:
